@@ -318,7 +318,9 @@ func runChild(work string, jobs []childJob) ([]*result, error) {
 		return nil, err
 	}
 	cmd := exec.Command(exe, "c02-child", jobFile)
-	cmd.Env = os.Environ()
+	// the process environment is not an input of a load: a name that only the child's process
+	// environment defines must not show up anywhere
+	cmd.Env = append(os.Environ(), "PROCESS_ONLY_VAR=set-in-the-process-environment-of-the-child-only")
 	outb, err := cmd.Output()
 	if err != nil {
 		return nil, fmt.Errorf("child process: %w", err)
